@@ -19,18 +19,16 @@ Definition codec_fixed (c : cfg) (hs : list hop) : bool :=
   forallb (fun h => match h with HSetCfg c' => Bool.eqb (c_json c') (c_json c) | _ => true end) hs.
 
 Lemma c01_wf_hop j h :
-  c01_hop false h = true -> match h with HSetCfg c' => Bool.eqb (c_json c') j | _ => true end = true ->
+  c01_hop h = true -> match h with HSetCfg c' => Bool.eqb (c_json c') j | _ => true end = true ->
   wf_hop j h = true.
 Proof.
   destruct h as [r|d|tbl pl| | |u tbl pl|u tbl pl|c']; cbn [c01_hop wf_hop]; intros H1 H2; try reflexivity;
     try exact H2; try (destruct pl; [reflexivity | discriminate H1]).
   unfold wf_req. destruct (rq_present r); [|discriminate H1]. destruct (rq_plan r); [|discriminate H1].
-  destruct (rq_crash r); [discriminate H1|]. cbn [nil_plan andb orb] in *.
-  rewrite forallb_forall in H1. apply forallb_forall. intros op Hin. specialize (H1 op Hin).
-  destruct op; try reflexivity. discriminate H1.
+  destruct (rq_crash r); [discriminate H1|]. reflexivity.
 Qed.
 
-Lemma c01_wf_hist c hs : forallb (c01_hop false) hs = true -> codec_fixed c hs = true -> wf_hist c hs = true.
+Lemma c01_wf_hist c hs : forallb c01_hop hs = true -> codec_fixed c hs = true -> wf_hist c hs = true.
 Proof.
   unfold wf_hist, codec_fixed. induction hs as [|h t IH]; [reflexivity|]. cbn [forallb].
   intros H1 H2. apply andb_prop in H1. apply andb_prop in H2. destruct H1 as [A1 A2], H2 as [B1 B2].
@@ -40,7 +38,7 @@ Qed.
 (* the jar invariant after every prefix *)
 Lemma JI_after j : forall hs w g,
   JI w g -> c_json (conf (w_st w)) = j ->
-  forallb (wf_hop j) hs = true -> forallb (c01_hop false) hs = true ->
+  forallb (wf_hop j) hs = true -> forallb c01_hop hs = true ->
   JI (HistInv3.after w hs) (g_after g hs (run_from w hs)) /\ c_json (conf (w_st (HistInv3.after w hs))) = j.
 Proof.
   induction hs as [|h t IH]; intros w g HJ Hj Hwf Hc01; [split; assumption|].
@@ -82,7 +80,7 @@ Qed.
    user ID) the ghost specification holds for that client, or an empty session
    under an ID drawn in this very step. *)
 Theorem c01_step_spec c hs r :
-  forallb (c01_hop false) (hs ++ [HReq r]) = true -> codec_fixed c (hs ++ [HReq r]) = true ->
+  forallb c01_hop (hs ++ [HReq r]) = true -> codec_fixed c (hs ++ [HReq r]) = true ->
   let w := HistInv3.after (mkWorld (init_st c) []) hs in
   let g := g_after [] hs (run c hs) in
   let o := snd (step w (HReq r)) in
@@ -110,7 +108,7 @@ Qed.
 
 (* The safety half of C01 for histories whose configuration changes keep the codec *)
 Theorem c01_safety_codec_fixed c hs :
-  forallb (c01_hop false) hs = true -> codec_fixed c hs = true -> g_run [] hs (run c hs) = true.
+  forallb c01_hop hs = true -> codec_fixed c hs = true -> g_run [] hs (run c hs) = true.
 Proof. intros H1 H2. apply c01_safety; [apply c01_wf_hist; assumption | exact H1]. Qed.
 
 (* and without configuration changes at all *)
@@ -125,7 +123,7 @@ Qed.
 
 (* every admissible step preserves the jar invariant and is admissible for the ghost *)
 Theorem step_JI w g h j :
-  JI w g -> c_json (conf (w_st w)) = j -> wf_hop j h = true -> c01_hop false h = true ->
+  JI w g -> c_json (conf (w_st w)) = j -> wf_hop j h = true -> c01_hop h = true ->
   JI (fst (step w h)) (snd (g_step g h (snd (step w h)))) /\
   fst (g_step g h (snd (step w h))) = true /\
   c_json (conf (w_st (fst (step w h)))) = j.
